@@ -540,6 +540,8 @@ def monitor_client(req, obs, extra, T):
     if extra['json_bytes'] > WORK_BOUND:
         return ('WORK: one data_received call fed %d bytes to json.loads (re-parsing at every "}"; %d bytes received in all): '
                 'a peer can stall the event loop past every timeout' % (extra['json_bytes'], extra['rx']))
+    if req.get('tag') in REFUSE_TAGS and isinstance(obs['phase'], list) and obs['phase'][0] == 'ok':
+        return 'the client accepted a response it must refuse (%s)' % req['tag']
     if req.get('honest'):
         if obs['phase'] != ['ok', len(truth)] or not verified or not obs['open']:
             return 'honest transfer did not complete: %r verified=%r open=%r' % (obs['phase'], verified, obs['open'])
@@ -654,6 +656,9 @@ def to_events(rng, chunks, drain_p=1.0):
             ev.append(['drain'])
     return ev
 
+
+REFUSE_TAGS = {'price_rejected', 'not_available', 'wrong_avail', 'avail_other', 'no_avail_key', 'no_price_key',
+               'json_error_resp', 'wrong_hash', 'hash_nonstr', 'json_falsy_error'}
 
 MISBEHAVIOURS = [
     'wrong_hash', 'wrong_avail', 'len_plus', 'len_minus', 'len_zero', 'len_neg', 'len_huge', 'len_str', 'len_null',
